@@ -237,3 +237,47 @@ def flow(rng, tier):
                 ops.append("dec:%d:%d" % (db, dm))
         lines.append("flow %d %d %s" % (mb, mm, " ".join(ops)))
     return lines
+
+
+def flowq(rng, tier):
+    """C19: wait_for_available_space futures polled by hand against inc/dec at call granularity:
+    all orders of up to 6 operations with up to 3 waiters exhaustively (thorough), random longer."""
+    lines = []
+    import itertools
+    alpha = ["inc:8:1", "dec:8:1", "new", "poll:0", "poll:1", "drop:0"]
+    L = 4 if tier == "quick" else 6
+    for n in range(1, L + 1):
+        for seq in itertools.product(alpha, repeat=n):
+            lines.append("flowq 16 2 " + " ".join(seq))
+            if tier == "quick" and len(lines) > 1500:
+                break
+    for _ in range(300 if tier == "quick" else 20000):
+        mb = rng.choice([1, 16, 100])
+        mm = rng.choice([1, 2, 5])
+        ops = []
+        nw = 0
+        b = m = 0
+        for _ in range(rng.range(3, 16)):
+            c = rng.below(10)
+            if c < 3:
+                db, dm = rng.choice([0, 1, 8, 16]), rng.choice([0, 1, 2])
+                b += db
+                m += dm
+                ops.append("inc:%d:%d" % (db, dm))
+            elif c < 5 and (b or m):
+                db, dm = rng.range(0, b), rng.range(0, m)
+                b -= db
+                m -= dm
+                ops.append("dec:%d:%d" % (db, dm))
+            elif c < 7 and nw < 4:
+                ops.append("new")
+                nw += 1
+            elif nw:
+                ops.append(("poll:%d" if rng.chance(5, 6) else "drop:%d") % rng.below(nw))
+        lines.append("flowq %d %d %s" % (mb, mm, " ".join(ops)))
+    return lines
+
+
+def pushtable(rng, tier):
+    """C14: the model's accepted-status table (compared with what the real HTTP path shows)."""
+    return ["push.accepts %d" % st for st in range(100, 600)]
